@@ -649,14 +649,25 @@ def real_pow(a, b):
     return POW(a, b)
 
 
+QUOT = z3.Function("floor_quot", z3.RealSort(), z3.RealSort(), z3.IntSort())
+
+
+def quot_axioms():
+    """floor quotient for a positive modulus: 0 <= a - b*q(a,b) < b (division-free definition of numpy's float %)"""
+    a, b = z3.Real("a!fq"), z3.Real("b!fq")
+    r = a - b * z3.ToReal(QUOT(a, b))
+    return [z3.ForAll([a, b], z3.Implies(b > 0, z3.And(r >= 0, r < b)), patterns=[QUOT(a, b)])]
+
+
 def real_mod(a, b, ctx, path, line):
-    """Python / numpy float % for a positive modulus: a - b*floor(a/b)  (floor = SMT to_int on reals)."""
+    """Python / numpy float % for a positive modulus: a - b*floor(a/b).  Modulus 1: floor = SMT to_int; any other
+    modulus: an integer-valued quotient q(a,b) characterised (division-free) by 0 <= a - b*q < b."""
     a, b = to_z3(a, "real"), to_z3(b, "real")
     if ctx is not None and path is not None:
         ctx.vc(f"modulus-positive@{line}", path, b > 0, "defined", line, note="% is encoded for a positive modulus")
     if z3.is_rational_value(b) and b.numerator_as_long() == 1 and b.denominator_as_long() == 1:
         return a - z3.ToReal(z3.ToInt(a))
-    return a - b * z3.ToReal(z3.ToInt(a / b))
+    return a - b * z3.ToReal(QUOT(a, b))
 
 
 def arr_arith(op, a, b, ctx, path, line):
@@ -796,7 +807,28 @@ class Executor:
             return self.globals[node.id]
         if node.id in ("True", "False", "None"):
             return {"True": True, "False": False, "None": None}[node.id]
+        imps = getattr(self, "imports", {})
+        if node.id in imps and imps[node.id].startswith("thejoker."):
+            v = self.repo_constant(imps[node.id])
+            if v is not None:
+                return v
         return NameRef(self.ctx.aliases.get(node.id, node.id))
+
+    def repo_constant(self, qual):
+        """value of a module-level constant of another repository module (read from that module's source)"""
+        from .extract import module_ast
+        mod, _, name = qual.rpartition(".")
+        try:
+            tree, path_, text, raw = module_ast(mod)
+        except (FileNotFoundError, SyntaxError):
+            return None
+        for st in tree.body:
+            if isinstance(st, ast.Assign) and len(st.targets) == 1 and isinstance(st.targets[0], ast.Name) and st.targets[0].id == name:
+                try:
+                    return self.ev(st.value, Path())
+                except Unsupported:
+                    return None
+        return None
 
     def ev_Tuple(self, node, path):
         return PyList([self.ev(e, path) for e in node.elts], None, True)
@@ -891,6 +923,8 @@ class Executor:
         idx = self.ev(node.slice, path)
         if isinstance(v, Obj) and "__getitem__" in v.fields:
             return v.fields["__getitem__"](self, path, v, idx, node)
+        if isinstance(v, Obj) and f"{v.cls}.__getitem__" in self.ctx.contracts:
+            return self.call_contract(self.ctx.contracts[f"{v.cls}.__getitem__"], [v, idx], {}, path, node)
         if isinstance(v, (SliceOf, SymSeq, Arr)) and self.ctx.emit and not self.spec_mode and is_int(idx) and getattr(self.ctx, "bounds_checks", False):
             n = length(v)
             self.ctx.vc(f"index-in-bounds@{node.lineno}", path, b_and(compare(ast.LtE(), -n, idx) if False else True, compare(ast.Lt(), idx, n)), "defined", node.lineno)
@@ -907,8 +941,12 @@ class Executor:
         if isinstance(v, NameRef):
             d = v.dotted + "." + attr
             known = self.ctx.lib.get(d)
-            if isinstance(known, Obj):       # a library *value* (e.g. astropy.units.day)
+            if isinstance(known, Obj) or is_z3(known):       # a library *value* (e.g. astropy.units.day, numpy.pi)
                 return known
+            if d.startswith("thejoker.") and d.rsplit(".", 1)[1].isupper():
+                cv = self.repo_constant(d)
+                if cv is not None:
+                    return cv
             return NameRef(d)
         if isinstance(v, Obj):
             if attr in v.fields:
@@ -1133,11 +1171,41 @@ class Executor:
             q = self.resolve_repo(name)
             if q in ctx.contracts:
                 return self.call_contract(ctx.contracts[q], args, kwargs, path, node)
+            if q in getattr(ctx, "inline", ()):
+                return self.call_inline(q, args, kwargs, path, node)
             if name in ctx.lib:
                 ctx.trusted_used.add(name)
                 return ctx.lib[name](self, path, args, kwargs, node, fn)
             raise Unsupported(f"call to {name} has neither a contract nor a library contract (line {node.lineno})")
         raise Unsupported(f"call of {fn!r}")
+
+    def call_inline(self, qual, args, kwargs, path, node):
+        """small repository helpers listed in the contract module's INLINE set are executed on their real source at
+        the call site.  Exactly one normally-returning path is required; the conditions of the callee's raising paths
+        are excluded from the continuing path (partial correctness: an exception there would propagate)."""
+        from .extract import locate
+        fs = locate(qual)
+        fa = fs.node.args
+        names = [a.arg for a in fa.args]
+        bound = {}
+        for n_, v in zip(names, args):
+            bound[n_] = v
+        bound.update(kwargs)
+        for n_, d in zip(names[len(names) - len(fa.defaults):], fa.defaults):
+            if n_ not in bound:
+                bound[n_] = self.ev(d, Path())
+        sub = Executor(self.ctx, fs, self.contract, self.globals)
+        from .verify import module_env
+        module_env(fs, sub)
+        p0 = Path(bound, path.pc)
+        p0.ghost = path.ghost
+        saved = self.ctx.fnshort
+        outs = sub.run(p0)
+        rets = [p for p in outs if p.status == "return"]
+        if len(rets) != 1:
+            raise Unsupported(f"inlined helper {qual} has {len(rets)} returning paths at this call (line {node.lineno})")
+        path.pc[:] = rets[0].pc
+        return rets[0].ret
 
     def resolve_repo(self, name):
         mod = self.fnsrc.qual.rsplit(".", 1)[0] if self.fnsrc else ""
@@ -1249,6 +1317,9 @@ class Executor:
     def store(self, base, idx, value, path, node):
         if isinstance(base, Obj) and "__setitem__" in base.fields:
             return base.fields["__setitem__"](self, path, base, idx, value, node)
+        if isinstance(base, Obj) and f"{base.cls}.__setitem__" in self.ctx.contracts:
+            # a mutating method under contract: its result builder returns the updated receiver
+            return self.call_contract(self.ctx.contracts[f"{base.cls}.__setitem__"], [base, idx, value], {}, path, node)
         if isinstance(base, PyDict):
             return base.set(idx, value)
         if isinstance(base, PyList) and isinstance(idx, int) and base.tail is None:
@@ -1260,7 +1331,9 @@ class Executor:
             iz = to_z3(idx)
             return SymSeq(old.length, lambda k, old=old, iz=iz, value=value: merge_ite(to_z3(k) == iz, value, old.elem(k)), old.kind)
         if isinstance(base, Arr):
-            return arr_store(base, idx, value)
+            r = arr_store(base, idx, value)
+            path.assume(*[f for f in getattr(r, "facts", []) if f is not True and not any(f is g for g in path.pc)])
+            return r
         raise Unsupported(f"store into {base!r}[{idx!r}]")
 
     # ---- statements ---------------------------------------------------------------------
@@ -1316,6 +1389,15 @@ class Executor:
     def st_Expr(self, s, path):
         if isinstance(s.value, ast.Constant):
             return [path]  # docstring
+        if (isinstance(s.value, ast.ListComp) and len(s.value.generators) == 1 and isinstance(s.value.elt, ast.Call)
+                and isinstance(s.value.elt.func, ast.Attribute) and s.value.elt.func.attr in ("append", "setdefault", "update")):
+            # [d.setdefault(k, v) for k, v in ...]  ==  for k, v in ...: d.setdefault(k, v)
+            g = s.value.generators[0]
+            loop = ast.For(target=g.target, iter=g.iter, body=[ast.Expr(value=s.value.elt)], orelse=[])
+            ast.copy_location(loop, s)
+            ast.fix_missing_locations(loop)
+            if not g.ifs:
+                return self.st_For(loop, path)
         if isinstance(s.value, ast.Call):
             f = s.value.func
             # dropped (DESIGN 2.2): logger.*, warnings.warn
@@ -1324,6 +1406,10 @@ class Executor:
             # mutating container methods: rebind the receiver
             if isinstance(f, ast.Attribute) and f.attr in ("append", "extend", "update", "setdefault", "pop"):
                 recv = self.ev(f.value, path)
+                if isinstance(recv, Obj) and "__mutate__" in recv.fields:
+                    args = [self.ev(a, path) for a in s.value.args]
+                    self.assign(f.value, recv.fields["__mutate__"](recv, f.attr, args), path)
+                    return [path]
                 if isinstance(recv, (PyList, SymSeq, PyDict)):
                     args = [self.ev(a, path) for a in s.value.args]
                     new = self.mutate(recv, f.attr, args, path, s)
@@ -1343,6 +1429,9 @@ class Executor:
                 if old.elem is None:
                     return SymSeq(n + 1, lambda k, v=v: v, old.kind)
                 return SymSeq(n + 1, lambda k, old=old, n=n, v=v: merge_ite(to_z3(k) == to_z3(n), v, old.elem(k)), old.kind)
+        if meth == "setdefault" and isinstance(recv, PyDict):
+            k, v = args[0], (args[1] if len(args) > 1 else None)
+            return recv if k in recv.vals else recv.set(k, v)
         if meth == "update" and isinstance(recv, PyDict) and isinstance(args[0], PyDict):
             d = recv
             for k in args[0].keys:
@@ -1892,13 +1981,12 @@ def arr_store(a, idx, value):
                 cond.append(kd == to_z3(i))
             elif isinstance(i, Arr) and i.dtype == "bool":
                 cond.append(i.at(kd))
-                src_idx.append(None)
+                # x[mask] = values : the k-th True position receives values[rank of k among the True positions]
+                src_idx.append(where_of(i).pos(kd))
             else:
                 raise Unsupported(f"array store index {i!r}")
         if isinstance(value, Arr):
-            if any(x is None for x in src_idx):
-                raise Unsupported("masked store of an array value")
-            v = value.at(*src_idx)
+            v = value.at(*src_idx[:value.ndim])
         else:
             v = to_z3(value, "real" if a.dtype == "real" else None)
         if a.dtype == "real" and is_z3(v) and v.sort() == z3.IntSort():
@@ -1906,4 +1994,7 @@ def arr_store(a, idx, value):
         return z3.If(z3.And(*cond), v, a.at(*k))
     r = Arr(a.shape, at, a.dtype, a.name)
     r.facts = list(getattr(a, "facts", [])) + (list(getattr(value, "facts", [])) if isinstance(value, Arr) else [])
+    for i in maps:
+        if isinstance(i, Arr) and i.dtype == "bool":
+            r.facts += list(where_of(i).facts)
     return r
